@@ -6,6 +6,7 @@ Decides (structure on every path, not interleavings):
   3 SEQ-PAIR    the five-byte frame (PC3,F1,IMR1) is pushed in the same order everywhere and popped in reverse by RETI;
                 IMR is written back with bit 7 cleared; same vector constant
   4 GUARD-DOM   low power: the instruction executor is not reached while halted; OFF returns unless ONK
+  5 VALUE       the saved IMR is the IMR as read; interrupt context is left only on RETI; every timer ISR latch arms the dispatcher
 """
 from __future__ import annotations
 
